@@ -15,5 +15,6 @@ CONSTANTS
 INVARIANT NoWaiterLeftObs
 INVARIANT NoOrphanConnectionObs
 INVARIANT NoOrphanTaskObs
+INVARIANT NoWaiterLeftAtReturn
 INVARIANT ConnectBackCleanObs
 CHECK_DEADLOCK TRUE
